@@ -105,6 +105,26 @@ func (b *bigEval) redOf(e ast.Expr) int {
 				return b.redOf(c.Args[0])
 			}
 		}
+		// a helper of the package: what its last return statement yields (mulAdd: `return new(big.Int).Mod(t, p)`)
+		var id *ast.Ident
+		switch f := ast.Unparen(c.Fun).(type) {
+		case *ast.Ident:
+			id = f
+		case *ast.SelectorExpr:
+			id = f.Sel
+		}
+		if id != nil && b.p != nil && b.depth < 3 {
+			if fn, ok := b.pkg.TypesInfo.Uses[id].(*types.Func); ok && fn.Pkg() == b.pkg.Types {
+				if _, fd := declOf(b.p, fn); fd != nil && fd.Body != nil && len(fd.Body.List) > 0 {
+					if r, ok := fd.Body.List[len(fd.Body.List)-1].(*ast.ReturnStmt); ok && len(r.Results) >= 1 {
+						b.depth++
+						st := b.redOf(r.Results[0])
+						b.depth--
+						return st
+					}
+				}
+			}
+		}
 		return 0
 	}
 	if b.red == nil {
